@@ -146,7 +146,9 @@ func genLayout(rng *rand.Rand, e specEnzyme, k, minLen, maxLen int, circ bool) s
 			}
 			g := room + rng.Intn(40)
 			if rng.Intn(3) == 0 {
-				g = room // tightest spacing the domain allows
+				g = room // tightest spacing at which the cuts of a forward and a backward site do not cross
+			} else if rng.Intn(5) == 0 {
+				g = rng.Intn(room + 1) // closer still: a backward site's cut may lie upstream of the forward site's cut
 			}
 			filler(g)
 		}
@@ -173,16 +175,26 @@ func c10Record(tier string, seed int64, emit func(interface{})) {
 	g := 0
 	cut := func(e specEnzyme, name, s string, circ bool) {
 		var fr []clone.Fragment
-		if name != "" {
-			fr, _ = clone.CutWithEnzymeByName(clone.Part{Sequence: s, Circular: circ}, true, name)
-		} else {
-			fr = clone.CutWithEnzyme(clone.Part{Sequence: s, Circular: circ}, true, e.real())
-		}
+		// a panic is an outcome like any other: the specification decides whether the layout is one the property
+		// speaks about (the closely spaced layouts of the generator are not all inside its domain)
+		panicked := func() (msg string) {
+			defer func() {
+				if r := recover(); r != nil {
+					msg = fmt.Sprint(r)
+				}
+			}()
+			if name != "" {
+				fr, _ = clone.CutWithEnzymeByName(clone.Part{Sequence: s, Circular: circ}, true, name)
+			} else {
+				fr = clone.CutWithEnzyme(clone.Part{Sequence: s, Circular: circ}, true, e.real())
+			}
+			return ""
+		}()
 		out := []map[string]string{}
 		for _, f := range fr {
 			out = append(out, map[string]string{"fo": f.ForwardOverhang, "seq": f.Sequence, "ro": f.ReverseOverhang})
 		}
-		emit(map[string]interface{}{"k": "cut", "g": g, "enzyme": e, "s": strings.ToUpper(s), "circ": circ, "frags": out})
+		emit(map[string]interface{}{"k": "cut", "g": g, "enzyme": e, "s": strings.ToUpper(s), "circ": circ, "frags": out, "panic": panicked})
 	}
 	names := []string{"BsaI", "BbsI", "BtgZI"}
 	// every built-in enzyme by name on a small carrier plasmid with one forward and one backward site around an
